@@ -23,7 +23,7 @@ from vf.lang import (
 )
 from vf.props.c01 import ast_signature
 
-KINDS = ["marginal", "marginal", "lognorm", "plate", "mixture", "mixture_all", "twostep", "integrate_var", "integrate_gauss", "moment", "deficient", "boundary"]
+KINDS = ["marginal", "marginal", "lognorm", "plate", "mixture", "mixture_all", "twostep", "integrate_var", "integrate_gauss", "moment", "deficient", "boundary", "integrate_signed"]
 
 
 def rspec(name):
@@ -106,6 +106,24 @@ def gen_case(src):
         names = g.subset(reals, 1, len(reals))
         g2 = gauss_leaf(g, avail, rank_mode=g.pick(["full", "over", "deficient"]), real_names=g.perm(names))
         node = ("integrate", body, g2, rv(reals))
+    elif kind == "integrate_signed":
+        # integrands that are signed / transformed Gaussians and sums of them: -g2, (-g2) + g1, g1 - g2, exp(g2) + g1
+        mk = lambda: gauss_leaf(g, avail, rank_mode=g.pick(["full", "over"]), real_names=g.perm(g.subset(reals, 1, len(reals))))  # noqa: E731
+        g1, g2 = mk(), mk()
+        r = g.rint((0, 5))
+        if r == 0:
+            ig = ("un", "neg", g2)
+        elif r == 1:
+            ig = ("bin", "add", ("un", "neg", g2), g1)
+        elif r == 2:
+            ig = ("bin", "add", g1, ("un", "neg", g2))
+        elif r == 3:
+            ig = ("bin", "sub", g1, g2)
+        elif r == 4:
+            ig = ("bin", "add", ("un", g.pick(["exp", "abs"]), g2), g1)
+        else:
+            ig = ("bin", "add", ("un", "neg", g2), ("un", "neg", g1))
+        node = ("integrate", body, ig, rv(reals))
     else:  # moment
         node = ("red", "logaddexp", body, iv(ints[:1])) if ints else ("red", "logaddexp", body, rv(reals))
     typeof(node)
